@@ -153,6 +153,9 @@ class WorldImpl:
         self.log, self.trace = [], []
         self.named_calls = []
         self.pending_hold = False
+        self.dropped_at = set()  # id() of the models the program dropped: addresses the runtime may hand out again
+        _, Agent, _ = _mesa()
+        self.ids_before = set(Agent._ids.keys())  # (class-level state that is there before this scenario starts)
 
     # -- agents ---------------------------------------------------------------------------
     def new_aid(self, agent):
@@ -259,6 +262,9 @@ class WorldImpl:
     def state(self):
         ms = []
         for model in self.models:
+            if model is None:  # dropped by the program (`dropmodel`): nothing to look at
+                ms.append({"A": [], "T": [], "K": [], "len": 0, "gone": True})
+                continue
             A = [(a.aid, a.unique_id) for a in model.agents]
             T = [(self.CLS.index(c), [a.aid for a in s]) for c, s in model.agents_by_type.items()]
             K = [self.CLS.index(c) for c in model.agent_types]
@@ -274,7 +280,7 @@ class WorldImpl:
             a = ",".join(f"{x}:{u}" for x, u in m["A"])
             t = ",".join(f"{ty}:{'.'.join(map(str, l))}" for ty, l in m["T"])
             k = ",".join(map(str, m["K"]))
-            parts.append(f"M{i} A={a} T={t} K={k}")
+            parts.append(f"M{i} gone" if m.get("gone") else f"M{i} A={a} T={t} K={k}")
         for k, s in enumerate(st["S"]):
             parts.append(f"S{k}=" + ",".join(map(str, s)))
         parts.append("live=" + ",".join(map(str, st["live"])))
@@ -308,11 +314,87 @@ class WorldImpl:
             self.log = []
             return "err Unexpected " + type(e).__name__
 
+    @staticmethod
+    def line_models(w):
+        """the models a line names (as lean/Driver/Agents.lean `lineModels`)"""
+        def num(t):
+            return [int(t)] if t.isdigit() else []
+
+        if w[0] == "script":
+            return [m for part in " ".join(w[2:]).split(";") if len(a := part.split()) == 5 and a[0] == "create" for m in num(a[1])]
+        if len(w) < 2:
+            return []
+        if w[0] in ("create", "createn", "setagents", "removeall", "mkset", "dropmodel"):
+            return num(w[1])
+        if w[0] in ("shuffle", "sort", "copyset", "items", "do", "shuffledo", "map", "gdo", "gmap"):
+            t = w[1].split(":")
+            return num(t[1]) if (t[0] == "all" and len(t) == 2) or (t[0] == "type" and len(t) == 3) else []
+        return []
+
+    def drop_model(self, m):
+        """the program forgets model m and every reference to one of its agents; after the next collection of the cycle
+        collector the model and its agents are garbage.  Glue: unpatched mesa keeps every model alive for ever as a key
+        of the class-level `Agent._ids` (DESIGN: defect outside the quantifier), so the harness deletes that entry - as it
+        does at the end of every scenario - to let the model die at all; an implementation whose counters are not keyed
+        by the model object is not affected by this."""
+        import gc
+
+        _, Agent, _ = _mesa()
+        model = self.models[m]
+        self.trace.append(("dropmodel", m))
+        for aid in [a for a in self.held if self.info[a][0] == m]:
+            del self.held[aid]
+        for aid, acts in self.scripts.items():
+            self.scripts[aid] = [act for act in acts if not (act[0] == "create" and len(act) == 5 and act[1] == m)]
+        Agent._ids.pop(model, None)
+        model.world = None
+        self.models[m] = None
+        self.dropped_at.add(id(model))
+        ref = weakref.ref(model)
+        del model
+        for _ in range(3):
+            if ref() is None:
+                break
+            gc.collect()
+        assert ref() is None, "a dropped model is still referenced by the harness"
+
+    def new_model(self, script):
+        """`Model()`.  Glue: where the runtime places the object is its own business - CPython is free to give a new model
+        the address (`id()`) of a model that died before, and usually does so sooner or later in a long sweep.  After the
+        program dropped models the harness makes that happen now."""
+        if not self.dropped_at:
+            return scripted_model(self.WModel, script)
+        # `WModel()` = `object.__new__(WModel)` (mesa's Model defines no `__new__`) + `__init__`: uninitialised instances
+        # are taken until one lies where a dropped model lay; that one is initialised
+        cands, pick = [], None
+        for _ in range(4000):
+            c = object.__new__(self.WModel)
+            if id(c) in self.dropped_at:
+                pick = c
+                break
+            cands.append(c)
+        del cands
+        if pick is None:
+            return scripted_model(self.WModel, script)
+        from unittest import mock
+
+        with mock.patch("random.Random", lambda *a, **k: ScriptedRandom(script)):
+            pick.__init__(seed=0)
+        return pick
+
     def _line(self, w):
         k = w[0]
+        if any(m < len(self.models) and self.models[m] is None for m in self.line_models(w)):
+            return "bad-op"  # a dropped model cannot be named any more
+        if k == "dropmodel":
+            m = int(w[1])
+            if m >= len(self.models) or any(ms == m for _s, ms in self.sets):
+                return "bad-op"
+            self.drop_model(m)
+            return self.ok()
         if k == "model":
             script = [] if w[1] == "-" else [int(x) for x in w[1].split(",")]
-            m = scripted_model(self.WModel, script)
+            m = self.new_model(script)
             m.world = self
             self.models.append(m)
             return self.ok(f"m={len(self.models) - 1}")
@@ -533,8 +615,11 @@ class WorldImpl:
         """mesa keeps every model forever in the class-level `Agent._ids`; do not leak across scenarios"""
         _, Agent, _ = _mesa()
         for m in self.models:
-            Agent._ids.pop(m, None)
-            m.world = None
+            if m is not None:
+                Agent._ids.pop(m, None)
+                m.world = None
+        for key in [k for k in Agent._ids if k not in self.ids_before]:
+            del Agent._ids[key]  # whatever the counters are keyed by: what this scenario added goes with it
         self.held.clear()
 
 
@@ -560,8 +645,9 @@ def gen_script_rng(R):
     return ",".join(str(R.randrange(0, 50)) for _ in range(n)) if n else "-"
 
 
-def gen_actions(R, n_agents, n_models, live=None, n_sets=0):
+def gen_actions(R, n_agents, n_models, live=None, n_sets=0, models=None):
     acts = []
+    models = list(range(n_models)) if models is None else models
     for _ in range(R.choice([0, 1, 1, 1, 2, 3])):
         k = R.random()
         if n_sets and R.random() < 0.2:
@@ -575,7 +661,7 @@ def gen_actions(R, n_agents, n_models, live=None, n_sets=0):
             # mostly agents that exist now (earlier or later members of the sets being activated)
             acts.append(f"rm {R.choice(live) if live and R.random() < 0.8 else R.randrange(0, n_agents + 3)}")
         elif k < 0.85:
-            acts.append(f"create {R.randrange(n_models)} {R.randrange(NTYPES)} {R.choice([0, 1, 1, 2])} {R.choice([0, 0, 1])}")
+            acts.append(f"create {R.choice(models)} {R.randrange(NTYPES)} {R.choice([0, 1, 1, 2])} {R.choice([0, 0, 1])}")
         else:
             acts.append(f"unhold {R.randrange(0, n_agents + 1)}")
     if R.random() < 0.12:
@@ -599,17 +685,24 @@ def gen_world(R, flavor="c04", size=None):
             emit("model " + gen_script_rng(R))
         hold_p = R.choice([0.0, 0.2, 0.5, 1.0])
 
+        def models():
+            """the models the program still has (not dropped)"""
+            return [i for i in range(nm) if impl.models[i] is not None]
+
+        def a_model():
+            return R.choice(models())
+
         def hold():
             return 1 if R.random() < hold_p else 0
 
         def tgt():
             k = R.random()
             if k < 0.5 or (k >= 0.8 and not impl.sets):
-                return f"all:{R.randrange(nm)}"
+                return f"all:{a_model()}"
             if k >= 0.8 and R.random() < 0.5:
                 return "set:0"
             if k < 0.8:
-                m = R.randrange(nm)
+                m = a_model()
                 present = [impl.CLS.index(c) for c in impl.models[m].agent_types]
                 ty = R.choice(present) if present and R.random() < 0.9 else R.randrange(NTYPES)
                 return f"type:{m}:{ty}"
@@ -625,7 +718,7 @@ def gen_world(R, flavor="c04", size=None):
             return R.randrange(n)
 
         def create_line():
-            m = R.randrange(nm)
+            m = a_model()
             if R.random() < 0.6:
                 return f"create {m} {R.randrange(NTYPES)} {hold()} {R.randrange(-3, 9)}"
             n = R.choice([0, 1, 2, 3, 4])
@@ -649,7 +742,7 @@ def gen_world(R, flavor="c04", size=None):
             if flavor == "c02":
                 wts = [("create", .22), ("remove", .20), ("removeall", .04), ("unhold", .03), ("reorder", .08),
                        ("mkset", .02), ("script", .11), ("direct", .04), ("copyset", .04), ("items", .07), ("newmodel", .02),
-                       ("act", .13)]
+                       ("dropmodel", .03), ("act", .10)]
             else:
                 wts = [("create", .12), ("remove", .06), ("removeall", .01), ("unhold", .05), ("reorder", .06),
                        ("mkset", .08), ("script", .25), ("direct", .02), ("copyset", .02), ("items", .02), ("act", .31)]
@@ -674,7 +767,7 @@ def gen_world(R, flavor="c04", size=None):
                 if R.random() < 0.3:
                     emit(f"{kind} {a}")
             elif op == "removeall":
-                emit(f"removeall {R.randrange(nm)}" if R.random() < 0.7 else f"setagents {R.randrange(nm)}")
+                emit(f"removeall {a_model()}" if R.random() < 0.7 else f"setagents {a_model()}")
             elif op == "unhold":
                 emit(f"unhold {an_agent()}")
             elif op == "reorder":
@@ -700,7 +793,7 @@ def gen_world(R, flavor="c04", size=None):
                 # emptied, which then goes on creating agents
                 if nm >= 5:
                     continue
-                m = R.randrange(nm)
+                m = a_model()
                 emptied = R.random() < 0.6
                 if emptied:
                     emit(f"removeall {m}")
@@ -708,14 +801,34 @@ def gen_world(R, flavor="c04", size=None):
                 nm += 1
                 if emptied:
                     emit(f"create {m} {R.randrange(NTYPES)} {hold()} {R.randrange(-3, 9)}")
+            elif op == "dropmodel":
+                # a parameter sweep / batch run: the program is done with a model, drops it (the model and its agents become
+                # garbage) and builds the next one, which must number its agents from 1 - one to four rounds in a row
+                for _ in range(R.choice([1, 2, 3, 4])):
+                    can = [m for m in models() if not any(ms == m for _s, ms in impl.sets)]
+                    if not can or nm >= 9:
+                        break
+                    m = can[-1] if R.random() < 0.7 else R.choice(can)  # mostly the youngest: the one of the previous round
+                    if not impl.models[m].agents and R.random() < 0.8:
+                        emit(f"createn {m} {R.randrange(NTYPES)} {hold()} {R.choice([1, 2, 3])} s:{R.randrange(-3, 9)}")
+                    try:
+                        emit(f"dropmodel {m}")
+                    except AssertionError:
+                        # the model did not become garbage (something outside the scenario still refers to it): the
+                        # scenario ends before this line
+                        lines.pop()
+                        return core.Scenario(lines, {})
+                    emit("model " + gen_script_rng(R))
+                    nm += 1
+                    emit(f"createn {nm - 1} {R.randrange(NTYPES)} {hold()} {R.choice([1, 2, 3])} s:{R.randrange(-3, 9)}")
             elif op == "mkset":
                 ids = [an_agent() for _ in range(R.randrange(0, 7))]
-                emit(f"mkset {R.randrange(nm)} " + " ".join(map(str, ids)))
+                emit(f"mkset {a_model()} " + " ".join(map(str, ids)))
             elif op == "script":
                 for _ in range(R.choice([1, 2, 3])):
                     a = an_agent() if R.random() < 0.85 else na + R.randrange(0, 3)
                     live = [i for i, r in enumerate(impl.wr) if r() is not None]
-                    emit(f"script {a} " + gen_actions(R, na, nm, live, len(impl.sets)))
+                    emit(f"script {a} " + gen_actions(R, na, nm, live, len(impl.sets), models()))
             else:
                 kind = R.choice(["do", "do", "shuffledo", "shuffledo", "map", "gdo", "gmap"])
                 how = R.choice(["str", "fn"])
@@ -878,6 +991,11 @@ def oracle_c02(sc, obs):
                 if want is not None and (list(idx) != want or list(sl) != want or last != (want[-1] if want else None)):
                     bad.append(f"views: {tok} read by position is {list(idx)} (slice {list(sl)}, [-1] {last}), its members are {want} "
                                f"after `{line}`")
+            elif ev[0] == "dropmodel":
+                # the model is gone with all its agents; nothing of it can be observed any more
+                m = ev[1]
+                touched.add(m)
+                expect[m], expect_t[m] = [], {}
             elif ev[0] == "removeall":
                 m = ev[1]
                 touched.add(m)
@@ -986,6 +1104,9 @@ def oracle_c04(sc, obs):
                 m = ev[1]
                 # every agent of model m: the state after the op tells which are gone; use create info
                 registered -= {a for a in list(registered) if model_of.get(a) == m}
+            elif k == "dropmodel":
+                registered -= {a for a in list(registered) if model_of.get(a) == ev[1]}
+                held -= {a for a in list(held) if model_of.get(a) == ev[1]}
             elif k == "unhold":
                 held.discard(ev[1])
             elif k == "call":
